@@ -143,3 +143,21 @@ func OriginBad(x int) {
 func secret() {}
 func AllowedCaller()  { secret() }
 func IntruderCaller() { f := secret; f() }
+
+// defer-spilled result: go/ssa stores the result in a cell when the function defers
+func DeferRetGood(t *T, x int) bool {
+	t.mu.Lock()
+	defer t.mu.Unlock()
+	if !check(x) {
+		return false
+	}
+	return true
+}
+func DeferRetBad(t *T, x int) bool {
+	t.mu.Lock()
+	defer t.mu.Unlock()
+	if !check(x) {
+		return true
+	}
+	return true
+}
